@@ -55,6 +55,7 @@ import TaRs.Lemmas.CommodityChannelIndex
 import TaRs.Lemmas.BollingerBands
 import TaRs.Lemmas.ChandelierExit
 import TaRs.Lemmas.KeltnerChannel
+import TaRs.Lemmas.Misc.AverageTrueRange
 
 /-! ### `Enc64`: the encodability predicate (definitions) -/
 
